@@ -643,7 +643,21 @@ def jpeg_variants(rnd):
     yield "DHT (C4) before the frame header", jpeg(w, h, pre=(b"\xff\xc4" + struct.pack(">H", 5) + b"\x00\x01\x02",)), (w, h)
 
 
-def check_sniffers(which=None):
+def jpeg_marker_sweep():
+    """Directed search over the construct the JPEG clause is about: EVERY marker code as a segment in front of EVERY kind of frame header.
+    The leading segment's payload looks like a frame header (so a mis-classified marker yields a wrong size); the expected size is what the
+    reference reader `declared_size` (format specification) says; inputs on which the reference declares nothing are skipped."""
+    sofs = [0xC0, 0xC1, 0xC2, 0xC3, 0xC5, 0xC6, 0xC7, 0xC9, 0xCA, 0xCB, 0xCD, 0xCE, 0xCF]
+    for m in range(256):
+        for k, sof in enumerate(sofs if 0xC0 <= m <= 0xCF else [sofs[m % len(sofs)]]):
+            seg = bytes([0xFF, m]) + struct.pack(">H", 10) + b"\x08\x10\x11\x12\x13\x01\x01\x11"
+            data = jpeg(300 + m, 200 + k, pre=(seg,), sof=sof)
+            want = declared_size(data)
+            if want is not None:
+                yield f"segment with marker 0x{m:02X} before SOF 0x{sof:02X}", data, tuple(want)
+
+
+def check_sniffers(which=None, extra_files=None):
     """The real sniffers against the reference reader `declared_size` (format specifications) on generated files."""
     d = _imp("sharepoint2text.parsing.extractors.ms_modern.docx_extractor")._get_image_pixel_dimensions
     p = _imp("sharepoint2text.parsing.extractors.ms_modern.pptx_extractor")._get_image_pixel_dimensions
@@ -664,6 +678,10 @@ def check_sniffers(which=None):
         files.append(("bmp top-down", "bmp", bmp(w, -h), (w, h)))
         for (what, data, size) in jpeg_variants(rnd):
             files.append(("jpeg " + what, "jpeg", data, size))
+    for (what, data, size) in jpeg_marker_sweep():
+        files.append(("jpeg " + what, "jpeg", data, size))
+    for extra in (extra_files or []):
+        files.insert(0, extra)
     files.append(("not an image", "bin", b"hello world, no signature here....", None))
     files.append(("empty", "bin", b"", None))
     for name, fn in fns.items():
@@ -686,7 +704,7 @@ def check_sniffers(which=None):
     # the three OOXML copies agree (bounded differential run, also on malformed inputs)
     if not which or which == "agree":
         rnd2 = random.Random(23)
-        toks = [b"\xff", b"\xff\xc0", b"\xff\xc2", b"\xff\xe0", b"\xff\xd9", b"\xff\xda", b"\xff\xff", b"\x00\x02", b"\x00\x08", b"\x00\x0b",
+        toks = [bytes([0xFF, c]) for c in range(0xC0, 0xD0)] + [b"\xff", b"\xff\xc0", b"\xff\xc2", b"\xff\xe0", b"\xff\xd9", b"\xff\xda", b"\xff\xff", b"\x00\x02", b"\x00\x08", b"\x00\x0b",
                 b"\x00\x40", b"\x00\x01", b"\x08\x00\x10\x00\x20\x01", b"\x08", b"\x00", b"\x11\x22\x33", b"\xc0"]
         for _ in range(6000):
             dd = b"\xff\xd8" + b"".join(rnd2.choice(toks) for _ in range(rnd2.randint(0, 9)))
@@ -873,7 +891,21 @@ FMT_OF = {"docx_extractor": "docx", "pptx_extractor": "pptx", "xlsx_extractor": 
           "ods_extractor": "ods", "odg_extractor": "odg", "epub_extractor": "epub", "pdf_extractor": "pdf"}
 
 
-def search(ob):
+def model_files(wit):
+    """Candidate inputs taken from the solver model of the failed VC (byte strings: the decoded head, zero-padded to the model's length)."""
+    out = []
+    for k, v in (wit or {}).items():
+        if isinstance(v, dict) and "head" in v and "len" in v:
+            n = min(int(v["len"]), 1 << 16)
+            data = bytes((int(x) & 255) for x in v["head"][:n])
+            data = data + bytes(max(0, n - len(data)))
+            size = declared_size(data)
+            if size is not None:
+                out.append(("solver model", "jpeg" if data[:2] == b"\xff\xd8" else ("png" if data[:4] == b"\x89PNG" else ("gif" if data[:3] == b"GIF" else "bmp")), data, tuple(size)))
+    return out
+
+
+def search(ob, wit=None):
     """Native small-scope search for the obligation id `ob` -> failure dict or None."""
     mod = ob.split("/")[1].split(".py")[0] if "/" in ob else ""
     fmt = FMT_OF.get(mod)
@@ -894,11 +926,11 @@ def search(ob):
     if "/agree#" in ob:
         return check_sniffers("agree")
     if "_get_image_pixel_dimensions" in ob:
-        return check_sniffers(mod + ".py") or check_sniffers("agree")
+        return check_sniffers(mod + ".py", model_files(wit)) or check_sniffers("agree")
     if "get_jpeg_dimensions" in ob:
-        return check_sniffers("get_jpeg_dimensions")
+        return check_sniffers("get_jpeg_dimensions", model_files(wit))
     if "get_image_dimensions" in ob:
-        return check_sniffers("get_image_dimensions")
+        return check_sniffers("get_image_dimensions", model_files(wit))
     if "/numbering#counter-starts" in ob:
         return witness("numbering-per-unit", fmt)
     if "/numbering#" in ob:
@@ -973,7 +1005,7 @@ def find(req):
             x = {"observed": f"sweep crashed: {type(e).__name__}: {e}", "expected": "", "inputs": {}}
         out["outside_exclusion"] = x          # None: nothing fails outside the recorded exclusion (bounded native sweep)
         return out
-    r = search(req.get("obligation", ""))
+    r = search(req.get("obligation", ""), req.get("witness"))
     if r:
         return dict(r, reproduced=True)
     return {"reproduced": False, "note": "native small-scope search found no failing input"}
